@@ -7,6 +7,7 @@ from .. import corr
 from ..num import wire
 
 STREAMS = ["line", "formatter", "json"]
+REGENERATE_SRC = True
 RULE = ("records over the alphabet {a b , = space \" ' \\ % é 🚀 combining-acute} (every character special to "
         "the line protocol), 0..8 tags / fields, str / int / float / bool values, whitelist as set or dict with "
         "string and non-string defaults, integer resolutions, integer record times; three-way comparison: "
